@@ -91,6 +91,17 @@ int main(int argc, char **argv)
             }
             else if (op == "tmap_set")
                 reg.tmaps.at((long)cmd["map"])->scale = hx::num(cmd["scale"]);
+            else if (op == "smap_new")
+                reg.smap_gain[(long)cmd["map"]] = hx::num(cmd["gain"]);
+            else if (op == "smap_set")
+            {
+                const long id = cmd["map"];
+                const double g = hx::num(cmd["gain"]);
+                reg.smap_gain.at(id) = g;
+                for (auto &kv : reg.smap_setters)
+                    if (kv.first.first == id)
+                        kv.second(g); // the user mutates the map in place: every optimizer referencing it sees the change
+            }
             else if (op == "ws_destroy")
             {
                 reg.wss.erase((long)cmd["ws"]);
